@@ -49,6 +49,16 @@ def ceil_seconds(t):
     return (q if x >= 0 else -q) * US
 
 
+# constants of the API as probed from the compiled library (props/c19.py sets them before the oracle runs);
+# defaults = today's source values. The generators keep using B / TENY: they only choose inputs.
+CONSTS = {"min_wait": B, "min_update": B, "max_wf": TENY, "max_wfc": TENY, "max_uf": TENY, "max_ufc": TENY}
+
+
+def set_consts(params):
+    for k, v in zip(["min_wait", "min_update", "max_wf", "max_wfc", "max_uf", "max_ufc"], params):
+        CONSTS[k] = v
+
+
 class Spec:
     """entry -> due time. Knows the documented API preconditions (to predict internal_error)."""
 
@@ -63,7 +73,7 @@ class Spec:
         k = o[0]
         if k in "WU":
             return o[2], False
-        big = o[2] > TENY
+        big = o[2] > CONSTS[{"F": "max_wf", "C": "max_wfc", "G": "max_uf", "D": "max_ufc"}[k]]
         t = self.now + o[2]
         if k in "CD":
             t = ceil_seconds(t)
@@ -78,7 +88,8 @@ class Spec:
             mine, theirs = self.due, self.other
         if k in "WFC" or k in "UGD":
             t, big = self.abs_time((k,) + tuple(o[1:]))
-            if big or t == 0 or t < B or not self.valid[o[1]]:
+            lo = CONSTS["min_wait"] if k in "WFC" else CONSTS["min_update"]
+            if big or t == 0 or t < lo or not self.valid[o[1]]:
                 return True
             if o[1] in theirs:
                 return True          # scheduled in another scheduler
@@ -138,7 +149,7 @@ def _dispatch(sp, scripts, t, items, i, bad, st):
         if it.startswith("th="):
             break
         i += 1
-        if it == "FUEL":
+        if it.startswith("FUEL"):
             return i, "fuel"
         if it == "ERR:internal":
             bad.append(("spurious-internal-error", "internal_error inside perform(%d) that the API preconditions do not explain" % t))
@@ -165,13 +176,8 @@ def _dispatch(sp, scripts, t, items, i, bad, st):
     return i, "done"
 
 
-def oracle(case, line):
-    """Property C19 evaluated on ONE implementation output line. Returns list of (klass, text)."""
-    if line.startswith("CRASH") or line.startswith("HARNESS-ERROR") or line.startswith("BADCASE") or line == "MISSING":
-        return [("crash", "scheduler crashed / harness failed: " + line[:200])]
-    n, k, valid, scripts, ops = parse_case(case)
-    scripted_T = any(o[0] == "T" for b in scripts.values() for o in b)
-    head, _, tail = line.partition(" | ")
+def split_tokens(head):
+    """Result tokens of one output line (before ' | '): str for basic ops, list of items for P[..]/L[..]."""
     toks = []
     cur = None
     for t in head.split():
@@ -191,6 +197,40 @@ def oracle(case, line):
                 cur = [rest] if rest else []
         else:
             toks.append(t)
+    return toks
+
+
+def choices(line):
+    """The implementation's firing sequence per top-level op ('e e;e;;' - one group per op): the
+    tie-breaking oracle handed to the choice-driven model."""
+    head = line.partition(" | ")[0]
+    groups = []
+    for tk in split_tokens(head):
+        g = []
+        if isinstance(tk, list):
+            for it in tk:
+                if it.isdigit():
+                    g.append(it)
+                elif it.startswith("FUEL:") and it[5:].isdigit():
+                    g.append(it[5:])
+        groups.append(" ".join(g))
+    return ";".join(groups)
+
+
+def project(line):
+    """What the property talks about: per-op results and the final schedule; not the heap array."""
+    i = line.find(" H[")
+    return line[:i] if i >= 0 else line
+
+
+def oracle(case, line):
+    """Property C19 evaluated on ONE implementation output line. Returns list of (klass, text)."""
+    if line.startswith("CRASH") or line.startswith("HARNESS-ERROR") or line.startswith("BADCASE") or line == "MISSING":
+        return [("crash", "scheduler crashed / harness failed: " + line[:200])]
+    n, k, valid, scripts, ops = parse_case(case)
+    scripted_T = any(o[0] == "T" for b in scripts.values() for o in b)
+    head, _, tail = line.partition(" | ")
+    toks = split_tokens(head)
     bad = []
     if len(toks) != len(ops):
         return [("output-shape", "number of result tokens differs from number of ops")]
